@@ -310,6 +310,14 @@ def handleUnit4 (hd : List String) (so sn sr : String) : Option String :=
         | .error .fuel => "fuel"
         | .error _ => "panic")
      | _, _, _, _ => some "bad-op")
+  | ["helperslices", alg] =>
+    (match parseAlg alg, parseSeq so, parseSeq sn with
+     | some alg, some (_, old), some (_, new) =>
+       some (match utilsDiffSlices alg (Env.ofSeqs old new) old.size new.size {} with
+        | .ok sl => "ok H=" ++ ",".intercalate (sl.map showSlice)
+        | .error .fuel => "fuel"
+        | .error _ => "panic")
+     | _, _, _ => some "bad-op")
   | ["ucpl"] | ["ucsl"] =>
     (match parseSeq so, parseSeq sn, parseNats sr with
      | some (oOff, old), some (nOff, new), some [os, oe, ns, ne] =>
